@@ -24,7 +24,7 @@ var c02 = core.Register(&core.Prop{
 	Shards: func(tier string) int { return pickTier(tier, 8, 16) },
 	Floors: func(c map[string]int64, tier string) []string {
 		var out []string
-		for _, k := range []string{"agree_accept", "agree_reject", "prog_cases", "triple_cases", "context_cases"} {
+		for _, k := range []string{"agree_accept", "agree_reject", "prog_cases", "triple_cases", "context_cases", "long_flat_cases"} {
 			if c[k] == 0 {
 				out = append(out, "coverage floor: no "+k)
 			}
@@ -144,6 +144,7 @@ func runC02(w *core.W) {
 			w.Sample(genName, fmt.Sprintf("%q", clipS(string(src), 100)))
 		}
 	}
+	runC02Long(w)
 	// 1. exhaustive token sequences x 3 separator policies
 	kmax := w.Pick(3, 4)
 	idx := 0
